@@ -80,7 +80,7 @@ func (g *GlobalTransactionManager) Commit(ctx context.Context, gtr *GlobalTransa
 	}
 
 	bf := backoff.New(ctx, backoff.Config{
-		MaxRetries: config.CommitRetryCount,
+		MaxRetries: maxAttempts(config.CommitRetryCount),
 		MinBackoff: 100 * time.Millisecond,
 		MaxBackoff: 200 * time.Millisecond,
 	})
@@ -125,7 +125,7 @@ func (g *GlobalTransactionManager) Rollback(ctx context.Context, gtr *GlobalTran
 	}
 
 	bf := backoff.New(ctx, backoff.Config{
-		MaxRetries: config.RollbackRetryCount,
+		MaxRetries: maxAttempts(config.RollbackRetryCount),
 		MinBackoff: 100 * time.Millisecond,
 		MaxBackoff: 200 * time.Millisecond,
 	})
@@ -158,4 +158,14 @@ func (g *GlobalTransactionManager) Rollback(ctx context.Context, gtr *GlobalTran
 	gtr.TxStatus = res.(message.GlobalRollbackResponse).GlobalStatus
 
 	return nil
+}
+
+// maxAttempts maps a configured retry count to the number of attempts of the
+// backoff loop: a count below one means a single attempt, never "retry
+// forever" (which is what a zero MaxRetries means to the backoff package).
+func maxAttempts(retryCount int) int {
+	if retryCount < 1 {
+		return 1
+	}
+	return retryCount
 }
